@@ -58,8 +58,11 @@ CONSTRAINTS.
    while developing.  Measure cost as CPU time (`time ./check ...`: user+sys).  The quick tier must stay under about 900
    CPU-seconds (user+sys) and should not grow by more than ~30%% over what it costs now - put the expensive part of a new
    family into the thorough tier (cfg.quick / cfg.pick) and keep a representative boundary subset in quick.
- * All earlier seeds of your property must still be caught: when you are done run at least the eight most recent earlier ones
-   (tools/mut.sh seeded/%(pid)s-<letter>/patch.diff %(pid)s seeded/%(pid)s-<letter>/demo.py for letters g..n) and fix regressions.
+ * All earlier seeds of your property must still be caught: when you are done, run the final confirmation of the new seeds
+   AND of the eight most recent earlier ones with   python3 tools/confirm_seeds.py %(pid)s-o %(pid)s-p %(pid)s-q %(pid)s-r %(pid)s-g ... %(pid)s-n
+   (it wraps tools/mut.sh and records each outcome in the seed's meta.json - the only way you may write under seeded/);
+   fix regressions.  Run at most ONE check / mut.sh / confirm_seeds at a time (never several in parallel) and give long
+   commands a generous timeout (30 min): the machine is shared.
  * Edit only your own harness file and new files as said above; do not commit (the lead commits); do not touch
    MANIFEST.json, DESIGN.md, known_findings.json, evidence/, seeded/, /repo.  Remove scratch copies under /tmp when done.
  * /repo has fix commits newer than some seeds; `git -C /repo log --oneline | head` shows them.
